@@ -48,7 +48,9 @@ seed2 = {
   "s1": module("s1", "m", sub=True, belongs="m", imports=[dict(m="lib", p="lb")],
     gs=[grouping("sg", leaf("sl", desc="from sub"))],
     body=[cont("fromsub", uses("sg"), leaf("t"))]),
-  "lib": module("lib", "lb", [], gs=[grouping("lg", leaf("la"), cont("lc", leaf("lb1")))]),
+  "lib": module("lib", "lb", [], gs=[grouping("lg2", leaf("l2", dflt="two")),
+                                     grouping("lg", uses("lg2"), leaf("la"), cont("lc", leaf("lb1"), uses("lg3")),
+                                              gs=[grouping("lg3", leaf("l3"))])]),
 }
 
 # uses-augment that adds a case holding a uses; a submodule included by a submodule (with a body
